@@ -46,3 +46,55 @@ Theorem C06_others_wait_or_time_out : forall (D R : Type) (c : config D R) i w f
   (w_retry w = false -> exists c', cstep c i = Some c' /\ db c' = db c /\ lock c' = lock c /\ c_pc (cl c' i) = TimeoutRm f).
 Proof. exact others_wait_or_time_out. Qed.
 Print Assumptions C06_others_wait_or_time_out.
+
+(* ------------------------------------------------------------------ blocks over the REAL transaction bodies
+   (model/TxnBlock.v: a block is one writing call whose body is the composition of the bodies of its inner calls) *)
+From DC Require Import Val DiskBase SqlBase Gen_Disk Disk Cache CacheRun Refs SinvFacts Txn TxnFacts TxnBlock TxnBlockFacts.
+
+(* inline values: for every number of clients, every program of single calls and blocks (set, add, delete, pop, touch,
+   incr, lookups), every schedule with kills, the machine invariant holds; so ... *)
+Theorem C06_blocks_inline_invariant : forall c (progs : nat -> list bcall) sched,
+  (forall i, forallb (bcall_inline c) (progs i) = true) ->
+  Inv refs Winv0 (exec (init_config init_st (fun i => map (bcompile c) (progs i))) sched).
+Proof. exact block_inv. Qed.
+Print Assumptions C06_blocks_inline_invariant.
+
+(* ... the COMMIT of a block installs all its effects at once ... *)
+Theorem C06_block_commit_atomic : forall c progs sched i retry xs raises f o,
+  (forall i, forallb (bcall_inline c) (progs i) = true) ->
+  let cf := exec (init_config init_st (fun i => map (bcompile c) (progs i))) sched in
+  c_pc (cl cf i) = AtCommit (w_block retry (flat_map (call_wop c) xs) raises) f o -> bo_ok o = true ->
+  exists c', cstep cf i = Some c' /\ db c' = bo_db (body_block (flat_map (call_wop c) xs) raises (db cf) f) /\ lock c' = None.
+Proof. exact block_commit_atomic. Qed.
+Print Assumptions C06_block_commit_atomic.
+
+(* ... and a block that raises leaves the committed state exactly as it was *)
+Theorem C06_block_abort_restores : forall c progs sched i retry xs raises f o,
+  let cf := exec (init_config init_st (fun i => map (bcompile c) (progs i))) sched in
+  c_pc (cl cf i) = AtCommit (w_block retry (flat_map (call_wop c) xs) raises) f o -> bo_ok o = false ->
+  exists c', cstep cf i = Some c' /\ db c' = db cf /\ lock c' = None /\ commits c' = commits cf.
+Proof. exact block_abort_restores. Qed.
+Print Assumptions C06_block_abort_restores.
+
+(* file-backed values: the full statement is false of the code as written.  Findings C06-F1 and C06-F2 on the real
+   bodies: after `set k BIG; with transact: set k 5; raise` (resp. `pop k; raise`) the client has finished, the lock is
+   free, the row is back -- and refers to a file that no longer exists *)
+Theorem C06_abort_files_real_refuted :
+  (client_done w1_final = true /\ lock w1_final = None /\ length (rows (db w1_final)) = 1%nat /\ dangling w1_final = true) /\
+  (client_done w2_final = true /\ lock w2_final = None /\ length (rows (db w2_final)) = 1%nat /\ dangling w2_final = true).
+Proof. exact (conj abort_loses_file_real abort_loses_file_pop_real). Qed.
+Print Assumptions C06_abort_files_real_refuted.
+
+(* the block correspondence (harness/props/c06.py evaluates ConcRun.block_check on single-client programs with blocks run
+   by the implementation) is sound: agreement is agreement with a configuration the machine reaches with the block as
+   ONE call over the real bodies -- same outcomes, same rows and counters, and for every row its value file exists on disk
+   exactly when the machine says so (dangling rows included) *)
+From DC Require Import ConcRun ConcRunFacts.
+Theorem C06_block_correspondence_sound : forall c s0 setup prog events seen0 final,
+  block_check c s0 setup prog events seen0 final = -1 ->
+  exists su p sch,
+    compile_all c setup = Some su /\ compile_bitems c prog = Some p /\
+    let cf := exec (init_config s0 (prog_fun [p] su)) sch in
+    finished cf 0 = true /\ outcomes_match (c_done (cl cf 0)) seen0 = true /\ disk_matches_b cf final = true.
+Proof. exact block_check_reaches. Qed.
+Print Assumptions C06_block_correspondence_sound.
